@@ -30,7 +30,10 @@ def c_wop(o):
     if k == "open":
         return "WOpen %s %s %s" % (zl(o["keys"]), z(o["start"]), "true" if o["auto"] else "false")
     if k == "write":
-        return "WWrite [" + ";".join("(%d,%s)" % (kv["k"], zl(kv["v"])) for kv in o["frame"]) + "]"
+        fr = "[" + ";".join("(%d,%s)" % (kv["k"], zl(kv["v"])) for kv in o["frame"]) + "]"
+        if o.get("fault"):
+            return "WWriteFault %s %d %s" % (fr, o["fault"]["k"], z(o["fault"]["j"]))
+        return "WWrite " + fr
     return {"commit": "WCommit", "close": "WClose", "reopen": "WReopen"}[k]
 
 
@@ -312,3 +315,32 @@ def commit_edges(setup_or_ops):
                 if kv["v"]:
                     out.add(kv["v"][-1] + 1)
     return sorted(x for x in out if 0 <= x <= MAXTS)
+
+
+def add_short_write(rng, setup):
+    """Script ONE short write: a data-file Write of one channel of a frame stores only a prefix
+    of the series and fails (disk full half way).  Only on writers whose channels share one index
+    (the order in which cesium serves several index groups is not determined).  The session is
+    closed by the failure; the later sessions of the script reuse the channel's files."""
+    chans = {c["key"]: c for c in setup["channels"]}
+    script = setup["script"]
+    cand = []
+    cur = None
+    for i, o in enumerate(script):
+        if o["op"] == "open":
+            idx = {(chans[k]["key"] if chans[k]["index"] == 0 else chans[k]["index"]) for k in o["keys"] if k in chans}
+            cur = i if len(idx) == 1 and all(k in chans for k in o["keys"]) else None
+        elif o["op"] in ("close", "reopen"):
+            cur = None
+        elif o["op"] == "write" and cur is not None:
+            ks = [kv["k"] for kv in o["frame"] if kv["k"] in chans and
+                  (chans[kv["k"]]["dt"] != "uint8" or len(kv["v"]) >= 2) and len(kv["v"]) >= 1]
+            if ks:
+                cand.append((i, ks))
+    if not cand:
+        return False
+    # prefer an early session so that later writers run on the same files
+    i, ks = rng.choice(cand[:max(1, len(cand) // 2)] if rng.random() < 0.7 else cand)
+    script[i] = dict(script[i])
+    script[i]["fault"] = {"k": rng.choice(ks), "j": rng.randrange(0, 1000)}
+    return True
